@@ -40,6 +40,19 @@ class _Tr:
 
     def __init__(self, names):
         self.idx = {n: i for i, n in enumerate(names)}
+        # ids of JSON nodes whose Python value may be a Python INT (integer literals and max / min / abs / conditionals /
+        # + - over them).  CPython integers have no negative zero: `-0`, `0 * -3` are 0, whereas the float model would
+        # produce -0.0.  Pure integer-literal subtrees are folded exactly beforehand (fold_ints); what remains —
+        # negation / product of a NON-constant maybe-int (e.g. `-max(0, X)`) — is refused (fail-closed).
+        self.mi = set()
+
+    def _mi(self, j):
+        return id(j) in self.mi
+
+    def _mark(self, j, flag):
+        if flag:
+            self.mi.add(id(j))
+        return j
 
     def index(self, node):
         if isinstance(node, ast.Name) and node.id == 't':
@@ -70,7 +83,7 @@ class _Tr:
             if type(v) is int:
                 if abs(v) > MAXINT:
                     raise Unsupported('integer literal beyond 2**53')
-                return ['num', lib.fhex(float(v))], 'py', abs(v)
+                return self._mark(['num', lib.fhex(float(v))], True), 'py', abs(v)
             if type(v) is float and math.isfinite(v):
                 return ['num', lib.fhex(v)], 'py', abs(v)
             raise Unsupported('literal %r' % (v,))
@@ -79,6 +92,8 @@ class _Tr:
             return ['read', x, k], 'np', None
         if isinstance(node, ast.UnaryOp) and isinstance(node.op, ast.USub):
             j, kd, b = self.expr(node.operand)
+            if self._mi(j):
+                raise Unsupported('negation of a non-constant Python int (no negative zero among ints)')
             return ['neg', j], kd, b
         if isinstance(node, ast.UnaryOp) and isinstance(node.op, ast.UAdd):
             raise Unsupported('unary plus')
@@ -95,6 +110,8 @@ class _Tr:
             if op in ('add', 'sub'):
                 b = ba + bb
             elif op == 'mul':
+                if self._mi(ja) and self._mi(jb):
+                    raise Unsupported('product of non-constant Python ints (no negative zero among ints)')
                 b = ba * bb
             elif op == 'div' and jb[0] == 'num' and lib.unhex(jb[1]) != 0 or (op == 'div' and jb[0] == 'neg' and jb[1][0] == 'num' and lib.unhex(jb[1][1]) != 0):
                 d = abs(lib.unhex(jb[1] if jb[0] == 'num' else jb[1][1]))
@@ -103,14 +120,15 @@ class _Tr:
                 raise Unsupported('%s between Python numbers' % op)
             if b > MAXINT:
                 raise Unsupported('Python-number arithmetic beyond 2**53')
-            return ['bin', op, ja, jb], self.join([ka, kb]), b
+            return self._mark(['bin', op, ja, jb], op in ('add', 'sub', 'mul') and self._mi(ja) and self._mi(jb)), self.join([ka, kb]), b
         if isinstance(node, ast.Call) and not node.keywords:
             f = node.func
             if isinstance(f, ast.Name) and f.id in ('max', 'min') and len(node.args) >= 2:
                 parts = [self.expr(a) for a in node.args]
                 j = parts[0][0]
+                anyint = any(self._mi(p[0]) for p in parts)
                 for p in parts[1:]:
-                    j = [f.id, j, p[0]]
+                    j = self._mark([f.id, j, p[0]], anyint)
                 bs = [p[2] for p in parts if p[1] != 'np']
                 if any(b is None for b in bs):
                     raise Unsupported('unbounded Python number in max/min')
@@ -118,7 +136,7 @@ class _Tr:
                 return j, kd, (max(bs) if bs else None)
             if isinstance(f, ast.Name) and f.id == 'abs' and len(node.args) == 1:
                 j, kd, b = self.expr(node.args[0])
-                return ['abs', j], kd, b
+                return self._mark(['abs', j], self._mi(j)), kd, b
             if (isinstance(f, ast.Attribute) and isinstance(f.value, ast.Name) and f.value.id == 'np' and f.attr in FUN1
                     and len(node.args) == 1):
                 j, kd, b = self.expr(node.args[0])
@@ -132,7 +150,7 @@ class _Tr:
             bs = [b for kd, b in ((ka, ba), (kb, bb)) if kd != 'np']
             if any(b is None for b in bs):
                 raise Unsupported('unbounded Python number in conditional')
-            return self.cond(node.test, ja, jb), self.join([ka, kb]), (max(bs) if bs else None)
+            return self._mark(self.cond(node.test, ja, jb), self._mi(ja) or self._mi(jb)), self.join([ka, kb]), (max(bs) if bs else None)
         raise Unsupported('expression ' + type(node).__name__)
 
     def cond(self, test, ja, jb):
@@ -170,6 +188,40 @@ class _Tr:
         raise Unsupported('statement ' + type(node).__name__)
 
 
+class _FoldInts(ast.NodeTransformer):
+    """exact constant folding of subtrees made of integer literals only (unary minus, + - *, abs, max, min): CPython
+    computes them on ints (`-0` is 0, `0 * -3` is 0), so they are replaced by the int they denote before translation"""
+
+    @staticmethod
+    def _int(n):
+        return isinstance(n, ast.Constant) and type(n.value) is int
+
+    def visit_UnaryOp(self, node):
+        self.generic_visit(node)
+        if isinstance(node.op, ast.USub) and self._int(node.operand):
+            return ast.copy_location(ast.Constant(-node.operand.value), node)
+        return node
+
+    def visit_BinOp(self, node):
+        self.generic_visit(node)
+        if self._int(node.left) and self._int(node.right) and isinstance(node.op, (ast.Add, ast.Sub, ast.Mult)):
+            a, b = node.left.value, node.right.value
+            v = a + b if isinstance(node.op, ast.Add) else (a - b if isinstance(node.op, ast.Sub) else a * b)
+            if abs(v) <= MAXINT:
+                return ast.copy_location(ast.Constant(v), node)
+        return node
+
+    def visit_Call(self, node):
+        self.generic_visit(node)
+        if isinstance(node.func, ast.Name) and not node.keywords and node.args and all(self._int(a) for a in node.args):
+            vals = [a.value for a in node.args]
+            if node.func.id == 'abs' and len(vals) == 1:
+                return ast.copy_location(ast.Constant(abs(vals[0])), node)
+            if node.func.id in ('max', 'min') and len(vals) >= 2:
+                return ast.copy_location(ast.Constant(max(vals) if node.func.id == 'max' else min(vals)), node)
+        return node
+
+
 def evaluate_body(code):
     """the statements of `_evaluate` in the class text produced by build_model_definition"""
     tree = ast.parse(code)
@@ -191,7 +243,7 @@ def evaluate_body(code):
 
 def translate_code(code, names):
     tr = _Tr(names)
-    return [tr.stmt(s) for s in evaluate_body(code)]
+    return [tr.stmt(_FoldInts().visit(s)) for s in evaluate_body(code)]
 
 
 def prog_terms(prog):
